@@ -296,7 +296,7 @@ theorem rawSamples_length (P : Params) (size total ns : Nat) : ∀ (seqs : List 
 
 theorem samplesOf_ok (P : Params) {seqs : List (List Elem)} {size total ns : Nat}
     (hne : ∀ r ∈ seqs, r ≠ [])
-    (hidx : ∀ (len i ns : Nat), 0 < len → P.sampleIdx len i ns size total < len) :
+    (hidx : ∀ (len i ns : Nat), i < ns → 0 < len → P.sampleIdx len i ns size total < len) :
     samplesOf P seqs size total ns = .ok (sortKeys P.lt (rawSamples P seqs size total ns)) := by
   unfold samplesOf
   have hrows : seqs.mapM (fun run => (List.range ns).mapM (fun i =>
@@ -305,9 +305,9 @@ theorem samplesOf_ok (P : Params) {seqs : List (List Elem)} {size total ns : Nat
     apply mapM_ok
     intro run hrun
     apply mapM_ok
-    intro i _
+    intro i hi
     have hlen : 0 < run.length := List.length_pos_iff.mpr (hne run hrun)
-    have hlt := hidx run.length i ns hlen
+    have hlt := hidx run.length i ns (List.mem_range.mp hi) hlen
     simp only [sampleKey, keyAt, List.getElem?_eq_getElem hlt]
     rfl
   rw [hrows]
@@ -329,7 +329,7 @@ theorem splitIdx_mono {ns k p s t : Nat} (hst : s ≤ t) : splitIdx ns k p s ≤
 
 theorem samplingEnds_ok (P : Params) {seqs : List (List Elem)} {size total p : Nat}
     (hne : ∀ r ∈ seqs, r ≠ []) (hk : 0 < seqs.length) (hp : 1 ≤ p) (hosf : 1 ≤ P.osf)
-    (hidx : ∀ (len i ns : Nat), 0 < len → P.sampleIdx len i ns size total < len) :
+    (hidx : ∀ (len i ns : Nat), i < ns → 0 < len → P.sampleIdx len i ns size total < len) :
     samplingEnds P seqs size total p =
       .ok (samplingOffs P.lt seqs (splitVals P.lt (rawSamples P seqs size total (p * P.osf)) (p * P.osf) seqs.length p)) := by
   unfold samplingEnds
@@ -375,7 +375,7 @@ theorem splitVals_sorted {lt : Int → Int → Bool} (hlt : StrictWeak lt) (raw 
 theorem pmm_sampling_refines (P : Params) (hlt : StrictWeak P.lt) {seqsAll seqs : List (List Elem)}
     (hg : GoodRuns P.lt tagLt seqs) (hne : ∀ r ∈ seqs, r ≠ []) (hk : 0 < seqs.length) {p : Nat} (hp : 1 ≤ p)
     (hosf : 1 ≤ P.osf)
-    (hidx : ∀ (len i ns : Nat), 0 < len →
+    (hidx : ∀ (len i ns : Nat), i < ns → 0 < len →
       P.sampleIdx len i ns (seqs.map List.length).sum (seqs.map List.length).sum < len) :
     ∃ r, (samplingEnds P seqs (seqs.map List.length).sum (seqs.map List.length).sum p >>=
         pmmRun P.lt seqsAll seqs (seqs.map List.length).sum) = .ok r ∧
@@ -477,7 +477,7 @@ and adjacent per-thread windows that tile `[0, size)`. -/
 theorem pmmBase_refines_spec (P : Params) (hlt : StrictWeak P.lt) (seqsAll : List (List Elem))
     (hw : WellTagged seqsAll) (hk : KeySorted P.lt seqsAll) (size : Nat) (hsize : size ≤ seqsAll.flatten.length)
     (hthr : 1 ≤ P.threads) (hosf : 1 ≤ P.osf)
-    (hidx : ∀ (len i ns : Nat), 0 < len → P.sampleIdx len i ns size size < len)
+    (hidx : ∀ (len i ns : Nat), i < ns → 0 < len → P.sampleIdx len i ns size size < len)
     (hpart : PartSpec P.lt (nonEmpty seqsAll)) :
     ∃ r, pmmBase P seqsAll size = .ok r ∧ r.out = (kMerge P.lt seqsAll).take size ∧ r.ret = (size : Int) ∧
       (∃ o, IsPartition P.lt (keyRuns (nonEmpty seqsAll)) size o ∧ r.begins = scatterBegins seqsAll o) ∧
@@ -533,7 +533,7 @@ or the parallel base), the result is the first `size` elements of the stable k-m
 theorem pmm_refines_spec (P : Params) (hlt : StrictWeak P.lt) (fs fp : Bool) (mk mn : Nat)
     (seqsAll : List (List Elem)) (hw : WellTagged seqsAll) (hk : KeySorted P.lt seqsAll) (size : Nat)
     (hsize : size ≤ seqsAll.flatten.length) (hthr : 1 ≤ P.threads) (hosf : 1 ≤ P.osf)
-    (hidx : ∀ (len i ns : Nat), 0 < len → P.sampleIdx len i ns size size < len)
+    (hidx : ∀ (len i ns : Nat), i < ns → 0 < len → P.sampleIdx len i ns size size < len)
     (hpart : PartSpec P.lt (nonEmpty seqsAll)) :
     ∃ r, pmm P fs fp mk mn seqsAll size = .ok r ∧ r.out = (kMerge P.lt seqsAll).take size ∧ r.ret = (size : Int) := by
   unfold pmm
